@@ -1178,3 +1178,101 @@ Proof.
     + intros Hc. destruct (sim_closed _ _ HS Hc) as [C1 C2]. unfold ANid2tagref in B. rewrite C2 in B. discriminate.
     + apply (srel_keep (h_lib h)); [apply (sim_slots _ _ HS)|]. intros id tr X. rewrite Hids. assumption.
 Qed.
+
+(* ================= H. listing ================================================================================= *)
+Lemma sim_keep : forall h a l1, Sim h a -> h_sess h = true -> Good l1 -> (forall x, Repr l1 x <-> Repr (h_lib h) x) ->
+  (forall id tr, ANid2tagref (h_lib h) id = Some tr -> ANid2tagref l1 id = Some tr) -> Sim (hlib h l1) a.
+Proof.
+  intros h a l1 HS Hs HG HR Hids. constructor; simpl.
+  - assumption. - apply (sim_nodup _ _ HS). - intros x. rewrite HR. apply (sim_repr _ _ HS). - apply (sim_sess _ _ HS).
+  - rewrite Hs. discriminate. - apply (srel_keep (h_lib h)); [apply (sim_slots _ _ HS) | assumption].
+Qed.
+
+Lemma of_type_keys : forall ty l, keys (of_type ty l) = map (fun r => (ty, r)) (refs (of_type ty l)).
+Proof.
+  intros ty l. unfold of_type, keys, refs. induction l as [|a t IH]; simpl; [reflexivity|].
+  destruct (fst (a_key a) =? ty) eqn:E; simpl; [|assumption]. apply Z.eqb_eq in E. rewrite IH. f_equal. destruct (a_key a); simpl in *; congruence.
+Qed.
+Lemma refs_of_type_NoDup : forall ty l, NoDup (keys l) -> NoDup (refs (of_type ty l)).
+Proof.
+  intros ty l ND. apply (NoDup_map_inv (fun r => (ty, r))). rewrite <- of_type_keys. apply NoDup_filter_keys. assumption.
+Qed.
+
+Lemma tree_annrefs_NoDup : forall s ty t, Inv s -> l_tree s ty = Some t -> NoDup (tree_refs t).
+Proof.
+  intros s ty t HI Ht. destruct (inv_tree _ HI ty t Ht) as [_ [Hs Hent]]. pose proof (tsorted_NoDup _ Hs) as ND.
+  apply (NoDup_map_inv (AN_CREATE_KEY ty)). unfold tree_refs. rewrite map_map.
+  replace (map (fun x => AN_CREATE_KEY ty (e_annref (snd x))) t) with (tkeys t); [assumption|].
+  unfold tkeys. apply map_ext_in. intros [k e] Hin. destruct (Hent _ _ Hin) as [_ [K _]]. exact K.
+Qed.
+
+(** refs listed by a loaded tree under a predicate on the target = refs of the specification's annotations *)
+Lemma tree_filter_perm : forall h a ty t (p : Z -> Z -> bool), Sim h a -> l_tree (h_lib h) ty = Some t ->
+  Permutation (map (fun q => e_annref (snd q)) (filter (fun q => p (e_elmtag (snd q)) (e_elmref (snd q))) t))
+              (refs (filter (fun x => p (a_ttag x) (a_tref x)) (of_type ty (anns a)))).
+Proof.
+  intros h a ty t p HS Ht. pose proof (sim_good _ _ HS) as HG. destruct (tree_repr _ _ _ HG Ht) as [P1 P2].
+  apply NoDup_Permutation.
+  - pose proof (tree_annrefs_NoDup _ _ _ (proj1 HG) Ht) as ND. unfold tree_refs in ND. clear - ND.
+    induction t as [|q t IH]; simpl; [constructor|]. simpl in ND. inversion ND; subst. destruct (p _ _); simpl; [constructor|]; auto.
+    intros X. apply H1. apply in_map_iff in X. destruct X as [y [E Hy]]. apply filter_In in Hy. rewrite <- E. apply (in_map (fun x => e_annref (snd x))). tauto.
+  - pose proof (refs_of_type_NoDup ty _ (sim_nodup _ _ HS)) as ND. unfold refs in *. clear - ND.
+    induction (of_type ty (anns a)) as [|x l IH]; simpl; [constructor|]. simpl in ND. inversion ND; subst. destruct (p _ _); simpl; [constructor|]; auto.
+    intros X. apply H1. apply in_map_iff in X. destruct X as [y [E Hy]]. apply filter_In in Hy. rewrite <- E. apply (in_map (fun a => snd (a_key a))). tauto.
+  - intros r. unfold refs. rewrite !in_map_iff. split.
+    + intros [[k e] [E Hin]]. apply filter_In in Hin. destruct Hin as [Hin Hp]. simpl in *. subst r.
+      destruct (P1 _ _ Hin) as [_ [x [X1 [X2 X3]]]]. exists x. rewrite X2. split; [reflexivity|]. apply filter_In. inversion X3.
+      split; [|congruence]. unfold of_type. apply filter_In. split; [apply (sim_repr _ _ HS); assumption | rewrite X2; simpl; apply Z.eqb_refl].
+    + intros [x [E Hin]]. apply filter_In in Hin. destruct Hin as [Hin Hp]. unfold of_type in Hin. apply filter_In in Hin. destruct Hin as [Hin Hty].
+      apply Z.eqb_eq in Hty. apply (sim_repr _ _ HS) in Hin. destruct (P2 x Hin Hty) as [e [E1 [E2 E3]]].
+      exists (AN_CREATE_KEY ty (snd (a_key x)), e). simpl. split; [congruence|]. apply filter_In. split; [assumption|]. simpl. inversion E3. congruence.
+Qed.
+
+Lemma filter_true : forall A (l : list A), filter (fun _ => true) l = l.
+Proof. induction l; simpl; congruence. Qed.
+
+Lemma tree_count : forall h a ty t, Sim h a -> l_tree (h_lib h) ty = Some t -> zlen t = zlen (of_type ty (anns a)).
+Proof.
+  intros h a ty t HS Ht. pose proof (tree_filter_perm h a ty t (fun _ _ => true) HS Ht) as P. rewrite !filter_true in P.
+  apply Permutation_length in P. unfold refs in P. rewrite !map_length in P. unfold zlen. lia.
+Qed.
+
+Lemma entry_id : forall l ty t k e, Inv l -> l_tree l ty = Some t -> In (k, e) t ->
+  ANid2tagref l (e_id e) = Some (tag_of_type ty, e_annref e) /\ tyok ty /\ 0 <= e_id e.
+Proof.
+  intros l ty t k e HI Ht Hin. destruct (inv_tree _ HI ty t Ht) as [Hty [_ Hent]]. destruct (Hent _ _ Hin) as [Hr [Hk [nd [Z1 Z2]]]].
+  rewrite MAX_REF_val in Hr. split; [|split; [assumption | apply (inv_ids _ HI _ _ (zassoc_In _ _ _ _ Z1))]].
+  apply (ANid2tagref_spec l (e_id e) ty (e_annref e) HI). exists nd. split; [assumption|]. rewrite Z2, Hk.
+  split; [apply key_type | split; [apply key_ref | assumption]]; unfold tyok in Hty; lia.
+Qed.
+
+Lemma file_type_check : forall ty, tyok ty -> ((ty =? AN_FILE_LABEL) || (ty =? AN_FILE_DESC)) = negb (is_data ty).
+Proof. intros ty H. unfold tyok in H. assert (ty = 0 \/ ty = 1 \/ ty = 2 \/ ty = 3) as [-> | [-> | [-> | ->]]] by lia; reflexivity. Qed.
+
+Lemma sim_annlist : forall h a ty g r h' mr a' sr, Sim h a -> tyok ty ->
+  mstep h (OAnnlist ty g r) = (h', mr) -> step a (OAnnlist ty g r) = (a', sr) -> sr = RUnspec \/ (Sim h' a' /\ accepts sr mr).
+Proof.
+  intros h a ty g r h' mr a' sr HS Hty HM HSp. unfold mstep in HM. cbv beta iota zeta in HM. simpl in HSp.
+  rewrite (proj2 (valid_type_iff ty) Hty) in HSp. simpl in HSp. rewrite (sim_sess _ _ HS) in HSp.
+  destruct (h_sess h) eqn:Eh; simpl in HM, HSp; [|inversion HM; inversion HSp; subst; right; split; [assumption | exact I]].
+  unfold ANannlist in HM. rewrite (file_type_check ty Hty) in HM.
+  destruct (is_data ty) eqn:Ed; simpl in HM, HSp; [|inversion HM; inversion HSp; subst; right; split; [destruct h; assumption | exact I]].
+  unfold ANIannlist in HM. destruct (need_tree (h_lib h) ty) as [l1 rt] eqn:En.
+  destruct (need_tree_Good _ _ _ _ (sim_good _ _ HS) Hty En) as [HG1 [[t [-> Ht]] [_ [HR [Hids _]]]]].
+  pose proof (sim_keep h a l1 HS Eh HG1 HR Hids) as HS1.
+  inversion HM; inversion HSp; subst h' mr a' sr. right. split; [assumption|]. simpl. split; [|constructor]. right.
+  set (p := fun tg rf => (tg =? g) && (rf =? r)).
+  pose proof (tree_filter_perm (hlib h l1) a ty t p HS1 Ht) as P.
+  assert (Hf : filter (fun q => truth (ANIannlist_match (e_elmtag (snd q)) (e_elmref (snd q)) g r)) t =
+               filter (fun q => p (e_elmtag (snd q)) (e_elmref (snd q))) t).
+  { apply filter_ext. intros q. destruct (match_truth (e_elmtag (snd q)) (e_elmref (snd q)) g r) as [A _]. rewrite A. unfold p. apply andb_comm. }
+  rewrite Hf. rewrite !map_map.
+  assert (Hm : map (fun x => refof l1 (e_id (snd x))) (filter (fun q => p (e_elmtag (snd q)) (e_elmref (snd q))) t) =
+               map (fun q => e_annref (snd q)) (filter (fun q => p (e_elmtag (snd q)) (e_elmref (snd q))) t)).
+  { apply map_ext_in. intros [k e] Hin. apply filter_In in Hin. destruct Hin as [Hin _]. simpl.
+    destruct (entry_id l1 ty t k e (proj1 HG1) Ht Hin) as [X _]. unfold refof. rewrite X. reflexivity. }
+  rewrite Hm. unfold on_target. fold (p). 
+  change (filter (fun a0 => (a_ttag a0 =? g) && (a_tref a0 =? r)) (of_type ty (anns a))) with (filter (fun x => p (a_ttag x) (a_tref x)) (of_type ty (anns a))).
+  eexists _, _, _. split; [reflexivity|]. split; [|apply Permutation_sym; exact P].
+  f_equal. unfold zlen. rewrite map_length. apply Permutation_length in P. unfold refs in P. rewrite !map_length in P. lia.
+Qed.
